@@ -144,18 +144,19 @@ func (j *Journal) Wire() string {
 // ---------------------------------------------------------------- generator
 
 type JGenOpts struct {
-	MaxAccounts  int
-	MaxDays      int
-	Prices       bool   // emit price directives (for valued reports)
-	Valuation    string // valuation commodity the prices lead to
-	Accruals     bool   // allow @accrue annotations
-	Mutate       bool   // apply at most one lifecycle/assertion mutation (for C04)
-	Unicode      bool   // non-ASCII account segments / commodities
-	BaseDay      int    // first possible day
-	SpanDays     int    // days are drawn from [BaseDay, BaseDay+SpanDays]
-	ManyDecimals bool
-	DropPrices   bool // leave out some price declarations (valued reports must then fail)
-	ChainPrices  bool // declare some prices through a third commodity
+	MaxAccounts        int
+	MaxDays            int
+	Prices             bool   // emit price directives (for valued reports)
+	Valuation          string // valuation commodity the prices lead to
+	Accruals           bool   // allow @accrue annotations
+	Mutate             bool   // apply at most one lifecycle/assertion mutation (for C04)
+	Unicode            bool   // non-ASCII account segments / commodities
+	BaseDay            int    // first possible day
+	SpanDays           int    // days are drawn from [BaseDay, BaseDay+SpanDays]
+	ManyDecimals       bool
+	DropPrices         bool // leave out some price declarations (valued reports must then fail)
+	ChainPrices        bool // declare some prices through a third commodity
+	PricesFirstDayOnly bool // all price declarations on the first day (later days have bookings only)
 }
 
 var typeNames = []string{"Assets", "Liabilities", "Equity", "Income", "Expenses"}
@@ -256,7 +257,7 @@ func GenJournal(r *RNG, o JGenOpts) (*Journal, []string) {
 					tag("price-dropped")
 					continue
 				}
-				if di == 0 || r.Chance(1, 3) {
+				if di == 0 || (!o.PricesFirstDayOnly && r.Chance(1, 3)) {
 					p := fmt.Sprintf("%d.%02d", r.Range(0, 300), r.Range(1, 99))
 					if o.ChainPrices && len(coms) > 2 && r.Chance(1, 3) {
 						// price in a third commodity, which itself is (or will be) priced in the valuation commodity
